@@ -15,6 +15,9 @@ func planFor(prop, tier string) *Plan {
 	case "C06":
 		return planC06(tier)
 	}
+	if f, ok := planRegistry[prop]; ok {
+		return f(tier)
+	}
 	return nil
 }
 
@@ -125,9 +128,6 @@ func stepSweep(n int, roles []int, amevs, maxs, reqs []int, txcfgs [][2]int, api
 							if api == apiPrepareRequest {
 								c.extra = map[string]int{"mntx": 1}
 							}
-							if api == apiRecoveryMessage {
-								c.extra = map[string]int{"rreq": 1, "rresp": 1, "rcv": 1, "rpc": amev, "rc": 1, "mntx": 0}
-							}
 							j := stepJob(c, want)
 							j.BudgetS = budget
 							jobs = append(jobs, j)
@@ -203,5 +203,134 @@ func stepPlan(prop, tier string, want []string, cells []cellSpec, budget int) *P
 		"solver_limits": "5 s primary (z3 5.1), 20 s fallbacks (cvc5, z3 4.8, cvc5 int-blasting); an undecided query makes the run inconclusive",
 	}
 	p.Outside = []string{"N other than 4 (thorough adds 1, 2, 3, 5, 7)", "views above 20", "proposals with more than one transaction (thorough: two)", "map iteration orders other than insertion order for cached payloads"}
+	return p
+}
+
+func init() {
+	planRegistry["C02"] = planC02
+	planRegistry["C03"] = planC03
+	planRegistry["C04"] = planC04
+	planRegistry["C07"] = planC07
+	planRegistry["C10"] = planC10
+	planRegistry["C13"] = planC13
+}
+
+var planRegistry = map[string]func(tier string) *Plan{}
+
+func recCells(roles, amevs, reqs []int) []cellSpec {
+	var cs []cellSpec
+	for _, ex := range []map[string]int{{"rreq": 1}, {"rresp": 1}, {"rcv": 1}, {"rc": 1}, {"rpc": 1}} {
+		am := amevs
+		if ex["rpc"] == 1 {
+			am = []int{1}
+		}
+		cs = append(cs, cellSpec{roles: roles, amevs: am, reqs: reqs, apis: []int{apiRecoveryMessage}, extra: ex})
+	}
+	return cs
+}
+
+func planC02(tier string) *Plan {
+	want := []string{"C02"}
+	roles := []int{0, 1}
+	cells := []cellSpec{
+		{roles: roles, amevs: []int{0, 1}, reqs: []int{0, 1}, apis: []int{apiPrepareRequest, apiPrepareResponse, apiCommit, apiPreCommit, apiTimeout, apiChangeView}},
+		{roles: []int{-1}, amevs: []int{0, 1}, reqs: []int{0, 1}, apis: []int{apiPrepareRequest, apiCommit, apiPreCommit}},
+		{roles: []int{1}, amevs: []int{0, 1}, reqs: []int{1}, tx: [][2]int{{1, 0}}, apis: []int{apiTransaction, apiCommit, apiPreCommit}},
+	}
+	cells = append(cells, recCells([]int{1}, []int{0, 1}, []int{0})...)
+	if tier == "thorough" {
+		cells = append(cells, cellSpec{roles: []int{2, -1}, amevs: []int{0, 1}, reqs: []int{0, 1}, apis: allApis})
+		cells = append(cells, recCells([]int{0, 2}, []int{0, 1}, []int{0, 1})...)
+	}
+	p := stepPlan("C02", tier, want, cells, 900)
+	p.MustCover = []string{"event.processblock", "event.processpreblock", "step.end"}
+	p.MustAssert = []string{"C02.O1.certificate", "C02.O2.certificate", "C02.O3.index", "C02.O3.txorder", "INV"}
+	p.Explanation = "One-step symbolic execution of the real OnReceive/OnTimeout/OnTransaction from an arbitrary Inv state (N=4). At every ProcessBlock/ProcessPreBlock callback the harness asserts the decision certificate (>= M current-view commits/pre-commits that verify against exactly that block, block = tip+1 on the reported tip, content = the stored proposal in order); after the call it asserts the Inv conjuncts C02 relies on (verified-on-arrival, slot discipline, lazily built header). unsat = holds for every state and input; sat is replayed natively."
+	return p
+}
+
+func planC03(tier string) *Plan {
+	want := []string{"C03"}
+	cells := []cellSpec{
+		{roles: []int{0, 1}, amevs: []int{0, 1}, reqs: []int{0, 1}, apis: []int{apiChangeView, apiPrepareRequest, apiPrepareResponse, apiCommit, apiPreCommit, apiRecoveryRequest, apiTimeout, apiNewTransaction}},
+		{roles: []int{1}, amevs: []int{0, 1}, reqs: []int{1}, tx: [][2]int{{1, 0}}, apis: []int{apiTransaction}},
+	}
+	cells = append(cells, recCells([]int{1}, []int{0, 1}, []int{1})...)
+	if tier == "thorough" {
+		cells = append(cells, cellSpec{roles: []int{2}, amevs: []int{0, 1}, reqs: []int{0, 1}, apis: allApis})
+		cells = append(cells, recCells([]int{0, 1}, []int{0, 1}, []int{0, 1})...)
+	}
+	p := stepPlan("C03", tier, want, cells, 900)
+	p.MustCover = []string{"C03.O3.committed", "event.broadcast.commit", "event.broadcast.preparerequest", "event.broadcast.prepareresponse", "event.broadcast.changeview", "event.broadcast.recoverymessage", "step.end"}
+	p.MustAssert = []string{"C03.O3.view", "C03.O5.monotone", "C03.O5.view", "C03.O2.slot", "C03.O1.slot", "C03.O3.nocv.commit", "C03.O4.recovery.commit", "INV"}
+	p.Explanation = "One-step symbolic execution from an arbitrary Inv state; obligations at every Broadcast callback (own slot holds exactly the payload sent, retransmitted commit/pre-commit is the stored object, no ChangeView while an own commit/pre-commit is stored, recovery messages carry the own commit unchanged, height/view/index of every sent payload are the node's) and after the call (commit lock: view, height and own slots unchanged when committed before; view monotone), plus the Inv conjuncts the argument uses (own-slot facts, change-view bookkeeping)."
+	return p
+}
+
+func planC04(tier string) *Plan {
+	want := []string{"C04"}
+	cells := []cellSpec{
+		{roles: []int{0, 1}, amevs: []int{0, 1}, reqs: []int{0, 1}, apis: []int{apiChangeView, apiPrepareRequest, apiPrepareResponse, apiTimeout, apiPreCommit}},
+		{roles: []int{1}, amevs: []int{0, 1}, reqs: []int{1}, tx: [][2]int{{1, 0}}, apis: []int{apiTransaction, apiPrepareResponse}},
+	}
+	cells = append(cells, recCells([]int{1}, []int{0, 1}, []int{0})...)
+	if tier == "thorough" {
+		cells = append(cells, cellSpec{roles: []int{2}, amevs: []int{0, 1}, reqs: []int{0, 1}, apis: allApis})
+		cells = append(cells, recCells([]int{0, 1}, []int{0, 1}, []int{0, 1})...)
+	}
+	p := stepPlan("C04", tier, want, cells, 900)
+	p.MustCover = []string{"C04.O3.viewchanged", "event.broadcast.prepareresponse", "event.broadcast.commit", "event.broadcast.precommit", "step.end"}
+	p.MustAssert = []string{"C04.O1.proposal", "C04.O1.fromprimary", "C04.O1.alltx", "C04.O1.names", "C04.O1.verified", "C04.O2.quorum", "C04.O3.evidence", "INV"}
+	p.Explanation = "One-step symbolic execution from an arbitrary Inv state; at every PrepareResponse broadcast: proposal stored, from the designated primary, all transactions held, the verification callback accepted that very block in this call, the response names the proposal's hash; at the first Commit (PreCommit under anti-MEV) broadcast: >= M current-view preparations naming the proposal; after the call: a higher view only with >= M stored change-view requests for it or above."
+	return p
+}
+
+func planC07(tier string) *Plan {
+	want := []string{"C07"}
+	cells := []cellSpec{
+		{roles: []int{0, 1, -1}, amevs: []int{1}, reqs: []int{0, 1}, apis: []int{apiPrepareRequest, apiPrepareResponse, apiCommit, apiPreCommit, apiTimeout, apiChangeView}},
+		{roles: []int{1}, amevs: []int{1}, reqs: []int{1}, tx: [][2]int{{1, 0}}, apis: []int{apiTransaction, apiPreCommit}},
+	}
+	cells = append(cells, recCells([]int{1}, []int{1}, []int{0})...)
+	if tier == "thorough" {
+		cells = append(cells, cellSpec{roles: []int{0, 1, 2, -1}, amevs: []int{1}, reqs: []int{0, 1}, apis: allApis})
+	}
+	p := stepPlan("C07", tier, want, cells, 900)
+	p.MustCover = []string{"event.processpreblock", "event.broadcast.precommit", "event.broadcast.commit", "step.end"}
+	p.MustAssert = []string{"C07.O1.ownprecommit", "C07.O1.quorum", "C07.O1.preblock", "C07.O2.once", "C07.O3.newblock", "C07.O3.sign", "C07.O4.noprecommit", "C07.O4.nopreblock", "INV"}
+	p.Explanation = "One-step symbolic execution with the anti-MEV enabling height a solver variable (below, at, above the node's height); obligations at the Commit broadcast (own pre-commit stored, >= M current-view pre-commits, pre-block processed), at ProcessPreBlock (at most once per height, only at enabled heights), at NewBlockFromContext/Sign (only after the pre-block), at PreCommit broadcast/SetData (only at enabled heights), and the Inv conjuncts about the pre-commit table and the flags."
+	return p
+}
+
+func planC10(tier string) *Plan {
+	want := []string{"C10"}
+	cells := []cellSpec{
+		{roles: []int{0, 1}, amevs: []int{0, 1}, maxs: []int{0}, reqs: []int{0, 1}, apis: []int{apiChangeView, apiPrepareRequest, apiPrepareResponse, apiCommit, apiPreCommit, apiTimeout}, extra: map[string]int{"decided": 2}},
+		{roles: []int{0, 1}, amevs: []int{0}, maxs: []int{1}, reqs: []int{0, 1}, apis: []int{apiTimeout, apiNewTransaction, apiChangeView, apiPrepareRequest}, extra: map[string]int{"decided": 2}},
+		{roles: []int{1}, amevs: []int{0}, reqs: []int{1}, tx: [][2]int{{1, 0}}, apis: []int{apiTransaction}, extra: map[string]int{"decided": 2}},
+	}
+	cells = append(cells, recCells([]int{1}, []int{0}, []int{0})...)
+	if tier == "thorough" {
+		cells = append(cells, cellSpec{roles: []int{0, 1, 2}, amevs: []int{0, 1}, maxs: []int{0, 1}, reqs: []int{0, 1}, apis: allApis})
+	}
+	p := stepPlan("C10", tier, want, cells, 900)
+	p.MustCover = []string{"step.end"}
+	p.MustAssert = []string{"C10.O1.armed", "C10.O1.epoch", "C10.O2.nonneg", "INV"}
+	p.Explanation = "One-step symbolic execution with a model timer: after every API call an undecided validator's timer is armed for exactly (BlockIndex, ViewNumber) (Inv conjunct 14, asserted on the post-state, including nested view changes), every Timer.Reset is for the epoch current at that instant and has a non-negative duration (views <= 21, TimePerBlock <= 2^40 ns); OnTimeout for the current epoch re-arms the timer (the timer model is marked consumed before the call in the dedicated cells)."
+	return p
+}
+
+func planC13(tier string) *Plan {
+	want := []string{"C13"}
+	cells := []cellSpec{
+		{roles: []int{-1}, amevs: []int{0, 1}, maxs: []int{0, 1}, reqs: []int{0, 1}, apis: []int{apiChangeView, apiPrepareRequest, apiPrepareResponse, apiCommit, apiPreCommit, apiRecoveryRequest, apiTimeout, apiNewTransaction}},
+		{roles: []int{0, 1}, amevs: []int{0, 1}, maxs: []int{0}, reqs: []int{0, 1}, apis: []int{apiChangeView, apiPrepareRequest, apiPrepareResponse, apiCommit, apiPreCommit, apiRecoveryRequest, apiTimeout, apiNewTransaction}, extra: map[string]int{"watch": 1}},
+		{roles: []int{1}, amevs: []int{0, 1}, reqs: []int{1}, tx: [][2]int{{1, 0}}, apis: []int{apiTransaction}, extra: map[string]int{"watch": 1}},
+	}
+	cells = append(cells, recCells([]int{-1}, []int{0, 1}, []int{0})...)
+	p := stepPlan("C13", tier, want, cells, 900)
+	p.MustCover = []string{"step.end"}
+	p.MustAssert = []string{"INV"}
+	p.Explanation = "One-step symbolic execution with the node watch-only through either cause (own index -1, or the WatchOnly flag set with a valid index, primary and backup positions): any Broadcast, Block.Sign or PreBlock.SetData callback is a violation (asserted inside the callbacks), and Inv keeps the own slots empty."
 	return p
 }
